@@ -487,6 +487,8 @@ class Core:
             return z3.And(z3.Not(self.opt_is_none(a)), self.list_eq(self.opt_val(a), b))
         if kb == "Opt" and ka in ("List", "EmptyList"):
             return self.val_eq(b, a, node)
+        if ka == "Set" and kb == "Set":
+            return z3.And(self.set_subset(a, b, node), self.set_subset(b, a, node))
         if ka == "Tuple" and kb == "Tuple":
             if len(a.ty.elems) != len(b.ty.elems):
                 return z3.BoolVal(False)
@@ -510,6 +512,8 @@ class Core:
             return z3.Select(self.S.sort(coll.ty).dom(coll.z), self.coerce(x, coll.ty.k, node).z)
         if k == "Opt":
             return self.member(x, self.opt_val(coll), node)
+        if k == "Tuple":
+            return z3.Or(*[self.val_eq(x, self.tuple_get(coll, i), node) for i in range(len(coll.ty.elems))])
         if k == "Kwargs":
             name = [t for t, c in self.S._lits.items() if x.ty.kind == "Str" and c.eq(x.z)]
             if not name:
